@@ -8,7 +8,7 @@ Gen/VmfIds_gen.v holds
     path condition (comparisons of `desired` with integer constants, and/or/not; anything else is one opaque condition) and
     whether the path returns `desired` itself or anything else;  `super().get_id(desired)` is inlined;
   * gen_id_sites: every call  <...>.<manager attribute>.get_id(x)  of the module with the method it is in and whether the
-    statement stores the answer (possibly through str()) and x is a plain name / attribute;
+    statement stores the answer (possibly through str());
   * gen_parse_passes_preserve: VMF.parse constructs the map with preserve_ids=<its own parameter>.
 Fail-closed: statement and expression shapes that are not understood raise TranslateError."""
 from __future__ import annotations
@@ -304,7 +304,7 @@ def sites(tree: ast.Module, attrs: set[str]) -> list[tuple[str, str, bool]]:
                     if (isinstance(n, ast.Call) and isinstance(n.func, ast.Attribute) and n.func.attr == 'get_id'
                             and isinstance(n.func.value, ast.Attribute) and n.func.value.attr in attrs):
                         args = list(n.args) + [k.value for k in n.keywords]
-                        plain = len(args) == 1 and isinstance(args[0], (ast.Name, ast.Attribute))
+                        plain = len(args) == 1      # which ID is handed over is the object-level table's business (key id -> attribute id)
                         stored = False
                         if isinstance(st, ast.Assign) and len(st.targets) == 1 and isinstance(st.targets[0], (ast.Attribute, ast.Subscript)):
                             v = st.value
